@@ -71,7 +71,7 @@ def case_st(draw):
         kind = draw(st.sampled_from(['add', 'add', 'add', 'add', 'remove', 'remove', 'remove_name', 'remove_prefix', 'add_hook', 'add_hook', 'remove_hook', 'remove_obj']))
         ch = draw(st.lists(st.integers(0, 30), max_size=2))
         if kind == 'add':
-            ops.append({'op': 'add', 'rule': draw(st.integers(0, nrule - 1)), 'methods': draw(st.lists(st.sampled_from(METHS), min_size=1, max_size=2, unique=True)),
+            ops.append({'op': 'add', 'rule': draw(st.integers(0, nrule - 1)), 'methods': draw(st.lists(st.sampled_from(METHS), min_size=0 if draw(st.integers(0, 9)) == 0 else 1, max_size=2, unique=True)),      # (rarely: a route registered with no method yet)
                         'name': draw(st.sampled_from([None, None] + NAMEPOOL)), 'overwrite': draw(st.sampled_from([False, False, True])), 'choice': ch,
                         'mspell': draw(st.sampled_from([0, 0, 0, 1, 2, 3]))})      # the verb spelled upper / lower / capitalised / mixed (names are case-insensitive)
         elif kind == 'remove':
@@ -144,6 +144,8 @@ def build_fresh(model, tags, spell):
     items = [(v['order'], 'r', k, v) for k, v in model.routes.items()] + [(v['order'], 'h', k, v) for k, v in model.hooks.items() if any(v['known'])]
     for _, kind, key, v in sorted(items, key=lambda t: t[0]):
         if kind == 'r':
+            if not v['methods']:
+                fresh.add(R.render(v['ast'], (), spell), [], tags.handler('none'))          # a route that has no method (yet): it exists and answers 405
             for M, m in v['methods'].items():
                 fresh.add(R.render(m['ast'], m['choice'], spell), M, tags.handler(m['tag']))
         else:
@@ -153,6 +155,9 @@ def build_fresh(model, tags, spell):
                     fresh.add_hook(text, tags.hook(tag), hook_type=t)
     for name, key in model.names.items():
         v = model.routes[key]
+        if not v['methods']:
+            fresh.add(R.render(v['ast'], (), spell), [], tags.handler('none'), name, overwrite=True)
+            continue
         M, m = next(iter(v['methods'].items()))
         fresh.add(R.render(m['ast'], m['choice'], spell), M, tags.handler(m['tag']), name, overwrite=True)
     return fresh
@@ -517,6 +522,7 @@ def bounded(ctx):
         {'op': 'add', 'rule': 0, 'methods': ['GET'], 'name': None, 'overwrite': False, 'choice': [], 'mspell': 1},       # the verb in lower case
         {'op': 'add', 'rule': 5, 'methods': ['GET'], 'name': None, 'overwrite': True, 'choice': []},                     # overwrite through a rule that renames the wildcard
         {'op': 'add', 'rule': 0, 'methods': ['POST', 'GET'], 'name': None, 'overwrite': False, 'choice': []},            # refused as a whole when GET is taken (POST must not stay behind)
+        {'op': 'add', 'rule': 1, 'methods': [], 'name': 'n2', 'overwrite': False, 'choice': []},                          # a route registered with no method yet (it exists: 405)
         {'op': 'remove', 'rule': 0, 'choice': []},
         {'op': 'remove', 'rule': 2, 'choice': []},
         {'op': 'remove_name', 'name': 'n1'},
